@@ -1,9 +1,9 @@
 """Registry: which engine-V units and engine-K harness groups decide which property."""
 REGISTRY = {
     'C03': {
-        'v': ['c03_keyobjectset', 'c03_child_revoke', 'c01_roamode'],
+        'v': ['c03_keyobjectset', 'c03_child_revoke', 'c01_roamode', 'c14_objectset'],
         'k': [],
-        'level_text': 'Per-operation contracts on the key object set: every insert/remove records the superseded object\'s revocation and never drops one (unbounded, all inputs, loop invariants). "Gone from the repository after the next synchronisation" needs histories and is not decided.',
+        'level_text': 'Per-operation contracts on the key object set: every insert/remove records the superseded object\'s revocation and never drops one (unbounded, all inputs, loop invariants); a manifest/CRL re-issue keeps every unexpired revocation and the CRL is built from exactly that list (unit c14_objectset). "Gone from the repository after the next synchronisation" needs histories and is not decided.',
         'level_note': 'Opaque external types (rpki-rs, HashMap key model), Revocation identity = (serial, expires); callers above the contracted kernels are unverified (DESIGN A8).',
         'design_ref': 'DESIGN.md section 5 / C03',
         'not_covered': [],
@@ -26,20 +26,20 @@ REGISTRY['C01'] = {
     'not_covered': ['end-to-end RP validation, signatures, sync with the publication server, histories', 'Routes::filter / update_simple / update_aggregate / create_updates of ASPA and BGPsec (iterator chains over HashMaps)'],
 }
 REGISTRY['C05'] = {
-    'v': ['c05_routes', 'c05_child'],
+    'v': ['c05_routes', 'c05_child', 'c05_aspa'],
     'k': [],
-    'level_text': 'Routes::process_updates on the real text: refused exactly when some entry is invalid at its turn (unknown removal; invalid max length, prefix not held, already present with the same comment) -- both directions, for deltas of any length including duplicates inside one delta; an accepted delta returns the specified state and its events replay to it; a refused delta returns only the error. max_length_valid equals the statement definition.',
-    'level_note': 'ResourceSet::contains_roa_address uninterpreted (held); String equality axiom; HashMap key model for RoaPayloadJsonMapKey; derived Clone assumed value-preserving (R11); CertAuth command layer above is unverified (A8).',
+    'level_text': 'Routes::process_updates on the real text: refused exactly when some entry is invalid at its turn (unknown removal; invalid max length, prefix not held, already present with the same comment) -- both directions, for deltas of any length including duplicates inside one delta; an accepted delta returns the specified state and its events replay to it; a refused delta returns only the error. max_length_valid equals the statement definition. AspaDefinitions::process_updates: accepted only if every entry is well-formed (non-empty, no duplicates, customer not a provider) and its customer AS is held and every removal names a customer present at its turn; every refusal has such a reason; an accepted delta is applied entirely (replaying the returned events gives the returned definitions, as provider sets). Child add/update: see c05_child.',
+    'level_note': 'ResourceSet::contains_roa_address / contains_asn uninterpreted (held); ASPA: the two provider-diff iterator chains are replaced by an assumed set-difference function (R14) and AspaDefinition::{apply_update, customer_used_as_provider, contains_duplicate_providers} carry assumed set-level contracts; String equality axiom; HashMap key model for RoaPayloadJsonMapKey; derived Clone assumed value-preserving (R11); CertAuth command layer above is unverified (A8).',
     'design_ref': 'DESIGN.md section 5 / C05',
-    'not_covered': ['AspaDefinitions::process_updates (iterator chains; outside V, K gave no verdict)', 'repository untouched on refusal (follows from no event, A8)'],
+    'not_covered': ['BGPsec definition deltas', 'provider order inside an ASPA definition (contracts are over provider sets)', 'repository untouched on refusal (follows from no event, A8)'],
 }
 REGISTRY['C09'] = {
-    'v': ['c09_taskqueue', 'c09_scheduler'],
+    'v': ['c09_taskqueue', 'c09_scheduler', 'c09_queue'],
     'k': [],
-    'level_text': 'Against a ghost model of the (trusted) queue: a restart leaves no task in the running state and re-queues every task that was running, for any number of running tasks (unbounded loop invariant). The publish path schedules the RRDP update (unit c12_rfc8181). Queue internals, crash points and the scheduler loop are not decided.',
-    'level_note': 'commons::queue::Queue is specified by assumed contracts (running/pending sets), not verified; R7 (&self -> &mut self) lets the ghost model change.',
+    'level_text': 'Against a ghost model of the (trusted) queue: a restart leaves no task in the running state and re-queues every task that was running, for any number of running tasks (unbounded loop invariant). The publish path schedules the RRDP update (unit c12_rfc8181). Queue transaction bodies (closure bodies lifted verbatim, R15) against a ghost model of the key-value transaction: schedule_task leaves the task pending exactly once at the time its mode prescribes, soonest modes keep the earlier of the two times, finish modes end the running entry, IfMissing never replaces, other tasks untouched; the claim fold step hands out the earliest due key; finish refuses only what is not running. Eventual execution, crash points and the scheduler loop are not decided.',
+    'level_note': 'For the TaskQueue facade commons::queue::Queue is specified by assumed contracts (running/pending sets); in unit c09_queue the key-value Transaction (delete/store/has), task_storage_key/split_storage_key (format!/parse) and get_storage_key_and_time (find_map) carry assumed contracts and std::cmp::min::<u128> is assumed numeric; R7 (&self -> &mut self) lets the ghost model change.',
     'design_ref': 'DESIGN.md section 5 / C09',
-    'not_covered': ['Queue internals (closures over a key-value transaction): earliest-first claim order, keeps-the-earlier-time rule', 'crash while a task is running', 'scheduler::queue_start_tasks'],
+    'not_covered': ['claim_scheduled_pending_task outside its fold step (list_keys/into_iter/fold glue, move to running)', 'reschedule_long_running_tasks', 'Task::name is injective (queue de-duplicates on names built with format!)', 'crash while a task is running (file system)', 'eventual execution (liveness)'],
 }
 REGISTRY['C10'] = {
     'v': ['c10_current', 'c10_staged', 'c10_content', 'c11_snapshot', 'c12_rfc8181'],
@@ -71,7 +71,7 @@ REGISTRY['C13'] = {
     'level_text': 'Evaluation core: Role::is_allowed is exactly "per-CA grant beats blanket grant, non-CA requests use the general grant"; AuthInfo::check_permission grants exactly when the authenticated role allows, and passes an authentication error on. Route table: every handler reaches a state-touching facade method only after proceed_permitted with the permission the operation requires for the addressed CA (capability preconditions on the facade; oracle table written from the statement).',
     'level_note': 'PermissionSet::has uninterpreted in the V units (its bit algebra is decided by the K group); facade = KrillManager methods as assumed externals; listing handlers filtering inside closures not covered.',
     'design_ref': 'DESIGN.md section 5 / C13',
-    'not_covered': ['cas.rs::index_get (CA listing filtered inside a filter_map closure)', 'root.rs::ui / assets (static files from a build artefact)', 'metrics.rs and auth.rs (login) handlers', 'HTTP status mapping; effects of refused calls beyond the facade not being called'],
+    'not_covered': ['cas.rs::index_get outside its filter closure (ca_handles / collect glue; the closure that decides which CAs are listed is verified)', 'root.rs::ui / assets (static files from a build artefact)', 'metrics.rs and auth.rs (login) handlers', 'HTTP status mapping; effects of refused calls beyond the facade not being called'],
 }
 REGISTRY['C14'] = {
     'v': ['c14_objectset', 'c04_objects'],
@@ -90,13 +90,13 @@ REGISTRY['C15'] = {
     'not_covered': ['TrustAnchorSigner::process_signer_request (by-value HashMap loop)', 'TrustAnchorProxy::apply arm SignerResponseReceived (by-value HashMap loops)', 'manifest/CRL numbers only increase across re-initialisation histories'],
 }
 REGISTRY['C17'] = {
-    'v': ['c17_validate'],
+    'v': ['c17_validate', 'c17_categorise'],
     'k': ['k_bgp_prefix', 'k_bgp_analyser'],
-    'level_text': 'Validation core: validate agrees with RFC 6811 for covering lists of any length and both families (Verus, unbounded, generic over RoutePrefix); the RoutePrefix implementations equal their bit-level meaning over the full domain (Kani, complete). validate_set, categorise_roa and the prefix tree are bounded stand-ins (thorough tier).',
+    'level_text': 'Validation core: validate agrees with RFC 6811 for covering lists of any length and both families (Verus, unbounded, generic over RoutePrefix); the classification predicates inside categorise_roa (closure bodies lifted verbatim, R15): a ROA is called redundant exactly when the other ROA validates everything it validates, authorizes exactly the covered origins it matches, disallows exactly the invalid ones (Verus, unbounded; the prefix algebra it assumes is proved by Kani); the RoutePrefix implementations equal their bit-level meaning and are reflexive/transitive/length-monotone with sub-prefixes of every length, over the full domain (Kani, complete). validate_set end to end is a bounded stand-in (2 ROAs x 1 origin over a 4-prefix universe).',
     'level_note': 'Harness inputs satisfy the prefix type invariant; suggestion post-processing over large sets not decided.',
     'technique': 'Verus contracts on extracted real text + Kani full-domain harnesses on the real crate',
     'design_ref': 'DESIGN.md section 5 / C17',
-    'not_covered': ['suggestion post-processing over large sets'],
+    'not_covered': ['the iterator chains of categorise_roa around the verified predicates, the too-permissive heuristic, AS0 handling', 'prefix-tree lookup (RisWhois) vs brute force', 'suggestion post-processing over large sets'],
 }
 REGISTRY['C16'] = {
     'v': [],
@@ -105,7 +105,7 @@ REGISTRY['C16'] = {
     'level_note': 'Harness inputs are built by constructors encoding the type invariants; overflow judged as in a debug build; rpki-rs/bcder/serde_json/hyper decoders are outside.',
     'technique': 'Kani function contracts and full-domain loop-free harnesses (CBMC) on the real crate',
     'design_ref': 'DESIGN.md section 5 / C16',
-    'not_covered': ['rpki-rs CMS and XML decoders, serde_json, hyper (the larger half of the statement)'],
+    'not_covered': ['rpki-rs CMS and XML decoders, serde_json, hyper (the larger half of the statement)', 'krill string parsers (BgpSecAsnKey / AspaDefinition / RoaPayload FromStr): str::split + collect under CBMC gave no verdict in 15 min at 11 GB for 3 symbolic bytes (design-probes/k_api_bgpsec_NO_VERDICT.rs); Verus has no str reasoning'],
 }
 
 REGISTRY['C20'] = {
@@ -126,10 +126,10 @@ NOT_APPLICABLE = [
     {'property_id': 'C19', 'reason': 'status store is a cache written through storage under an RwLock from network paths; the only pure kernel is Vec::retain over URI values, nothing proof-level can be offered (DESIGN.md section 6)'},
 ]
 REGISTRY['C02'] = {
-    'v': ['c02_childcerts', 'c02_issue', 'c02_rcvd'],
+    'v': ['c02_childcerts', 'c02_issue', 'c02_rcvd', 'c02_unsuspend', 'c02_wants', 'c04_keystate'],
     'k': [],
-    'level_text': 'Per-operation contracts on the issuing side only: (1) issue_cert/make_issued_cert issue limit(issuer-certificate ∩ entitlement), refuse anything outside the issuing certificate, and the signed certificate carries exactly the recorded set; (2) the per-class certificate store keeps one record per child key (issued XOR suspended) under every mutator, whatever the suspension history; (3) shrink_overclaiming handles every over-claiming certificate (issued and suspended) by re-issuing exactly limit(new ∩ old) inside the new certificate, or revoking when nothing is left, and touches nothing else; activate_key re-issues every certificate in its own category; (4) process_rcvd_cert_current puts that update in the same event set as CertificateReceived (unbounded, all stores, loop invariants). Convergence and idempotence of parent-child synchronisation over histories are not decided.',
-    'level_note': 'ResourceSet algebra (contains/intersection/is_empty/difference), RequestResourceLimit::apply_to, make_tbs_cert, CertInfo::create and the signer are assumed contracts on externals; HashMap key model assumed for KeyIdentifier; Config is a one-field stub in c02_rcvd.',
+    'level_text': 'Per-operation contracts on the issuing side only: (1) issue_cert/make_issued_cert issue limit(issuer-certificate ∩ entitlement), refuse anything outside the issuing certificate, and the signed certificate carries exactly the recorded set; (2) the per-class certificate store keeps one record per child key (issued XOR suspended) under every mutator, whatever the suspension history; (3) shrink_overclaiming handles every over-claiming certificate (issued and suspended) by re-issuing exactly limit(new ∩ old) inside the new certificate, or revoking when nothing is left, and touches nothing else; activate_key re-issues every certificate in its own category; (4) process_rcvd_cert_current puts that update in the same event set as CertificateReceived (unbounded, all stores, loop invariants); (5) append_child_certify may only be called with resources inside the current entitlement of that child; process_child_certify and process_child_unsuspend (re-issue after a suspension) discharge that precondition; (6) idempotence kernel: a received certificate clears the open request (set_incoming_cert / apply_received_cert, unit c04_keystate) and wants_update asks for nothing when the certificate already carries the entitled resources and not-after time, and always asks when the resources differ. Convergence and idempotence of parent-child synchronisation over histories are not decided.',
+    'level_note': 'ResourceSet algebra (contains/intersection/is_empty/difference), RequestResourceLimit::apply_to, make_tbs_cert, CertInfo::create and the signer are assumed contracts on externals; HashMap key model assumed for KeyIdentifier; Config is a one-field stub in c02_rcvd; c02_wants: chrono timestamps assumed within +-2^60, IEEE division assumed total, Rsync::ends_with uninterpreted.',
     'design_ref': 'DESIGN.md section 5 / C02',
-    'not_covered': ['wants_update / 10% rule (f64 arithmetic, keys.rs)', 'entitlement class computation (certauth.rs:986-1084)', 'sync driver (manager.rs), taproxy/tasigner issuance', 'convergence in a bounded number of syncs; idempotence of a further sync (history properties)', 'publication of the ChildCertificatesUpdated event (covered per operation under C03/C04 units)'],
+    'not_covered': ['the 10% / one-week re-request thresholds of wants_update (f64 quotient left uninterpreted)', 'KeyState::append_entitlement_events (iterator adapter loop), in particular which key id is requested in RollOld', 'entitlement class computation (certauth.rs:986-1084)', 'sync driver (manager.rs), taproxy/tasigner issuance', 'convergence in a bounded number of syncs; idempotence of a further sync (history properties)', 'publication of the ChildCertificatesUpdated event (covered per operation under C03/C04 units)'],
 }
